@@ -663,6 +663,126 @@ func genBursts(r *vgen.Rand, tier string) []Burst {
 }
 
 // ---------------------------------------------------------------------------
+// Shutdown with an already-expired context while an export is retrying (the exporters whose Shutdown can
+// interrupt an in-flight export: otlptracehttp through its stop channel, otlptracegrpc through its stop context;
+// the metric and log exporters serialise Shutdown behind the running Export and are not observable this way).
+// ---------------------------------------------------------------------------
+
+type ShutExpObs struct {
+	Before           int    `json:"requests_before_shutdown"`
+	ShutdownReturned bool   `json:"shutdown_returned"`
+	ShutdownErr      string `json:"shutdown_err"`
+	ExportReturned   bool   `json:"export_returned"`
+	ExportErr        string `json:"export_err"`
+	ExportErrClass   int    `json:"export_err_class"`
+	Late             int    `json:"requests_later_than_1s_after_shutdown"`
+	LaterErr         string `json:"later_export_err"`
+	LaterErrClass    int    `json:"later_export_err_class"`
+}
+
+func runShutdownExpired(e, variant int, token string) (ob ShutExpObs, failure string) {
+	defer func() {
+		if r := recover(); r != nil {
+			failure = fmt.Sprintf("panic: %v", r)
+		}
+	}()
+	sc := &Scenario{Exporter: e, Enabled: true, Initial: 10 * time.Millisecond, MaxElapsed: 60 * time.Second, Timed: true,
+		CancelAt: -1, ShutdownAt: -1, Token: token}
+	if isHTTP(e) {
+		sc.Script = []Resp{{Status: 503}}
+	} else {
+		sc.Script = []Resp{{Code: 14}}
+	}
+	c := &collector{sc: sc, start: time.Now()}
+	endpoint, stop, err := startCollector(c)
+	if err != nil {
+		return ob, "collector: " + err.Error()
+	}
+	defer stop()
+	x, err := mkExporter(e, endpoint, sc)
+	if err != nil {
+		return ob, "exporter construction: " + err.Error()
+	}
+	count := func() int { c.mu.Lock(); defer c.mu.Unlock(); return len(c.arrivals) }
+	ectx, ecancel := context.WithCancel(context.Background())
+	defer ecancel()
+	exported := make(chan error, 1)
+	go func() { exported <- x.export(ectx) }()
+	deadline := time.Now().Add(10 * time.Second)
+	for count() < 3 {
+		if time.Now().After(deadline) {
+			return ob, "the export did not reach its third attempt within 10 s"
+		}
+		time.Sleep(time.Millisecond)
+	}
+	ob.Before = count()
+	var sctx context.Context
+	var scancel context.CancelFunc
+	if variant == 0 {
+		sctx, scancel = context.WithCancel(context.Background())
+		scancel()
+	} else {
+		sctx, scancel = context.WithTimeout(context.Background(), time.Millisecond)
+		defer scancel()
+	}
+	sdone := make(chan error, 1)
+	go func() { sdone <- x.shutdown(sctx) }()
+	var tShut time.Duration
+	select {
+	case serr := <-sdone:
+		ob.ShutdownReturned = true
+		if serr != nil {
+			ob.ShutdownErr = serr.Error()
+		}
+		tShut = time.Since(c.start)
+	case <-time.After(5 * time.Second):
+		tShut = time.Since(c.start)
+	}
+	// observe for 1.6 s: the export must come back, and nothing may arrive later than 1 s after Shutdown returned
+	window := time.After(1600 * time.Millisecond)
+	var eerr error
+	select {
+	case eerr = <-exported:
+		ob.ExportReturned = true
+		<-window
+	case <-window:
+	}
+	c.mu.Lock()
+	for _, a := range c.arrivals {
+		if a.at > tShut+time.Second {
+			ob.Late++
+		}
+	}
+	c.mu.Unlock()
+	if !ob.ExportReturned {
+		ecancel() // release the export so that the harness can go on
+		select {
+		case eerr = <-exported:
+		case <-time.After(10 * time.Second):
+			return ob, "export did not return even after its own context was cancelled"
+		}
+	}
+	if eerr != nil {
+		ob.ExportErr = eerr.Error()
+		if len(ob.ExportErr) > 200 {
+			ob.ExportErr = ob.ExportErr[:200]
+		}
+	}
+	ob.ExportErrClass = errClass(eerr)
+	lctx, lcancel := context.WithTimeout(context.Background(), 2*time.Second)
+	lerr := x.export(lctx)
+	lcancel()
+	if lerr != nil {
+		ob.LaterErr = lerr.Error()
+		if len(ob.LaterErr) > 200 {
+			ob.LaterErr = ob.LaterErr[:200]
+		}
+	}
+	ob.LaterErrClass = errClass(lerr)
+	return ob, ""
+}
+
+// ---------------------------------------------------------------------------
 // generators
 // ---------------------------------------------------------------------------
 
@@ -944,6 +1064,27 @@ func main() {
 		scs[i].Token = fmt.Sprintf("tok%06dx", i)
 	}
 
+	// Shutdown with an expired context during a retry loop: started now, collected at the end (each takes ~1.7 s)
+	type shutCase struct{ e, variant int }
+	var shutCases []shutCase
+	for rep := 0; rep < o.Count(3, 10); rep++ {
+		for _, e := range []int{0, 3} {
+			for v := 0; v < 2; v++ {
+				shutCases = append(shutCases, shutCase{e, v})
+			}
+		}
+	}
+	shutObs := make([]ShutExpObs, len(shutCases))
+	shutFail := make([]string, len(shutCases))
+	var swg sync.WaitGroup
+	for i, sc := range shutCases {
+		swg.Add(1)
+		go func(i int, sc shutCase) {
+			defer swg.Done()
+			shutObs[i], shutFail[i] = runShutdownExpired(sc.e, sc.variant, fmt.Sprintf("stk%04dx", i))
+		}(i, sc)
+	}
+
 	obs := make([]Obs, len(scs))
 	fails := make([]string, len(scs))
 	var wg sync.WaitGroup
@@ -1015,6 +1156,19 @@ func main() {
 		w.Tally(fmt.Sprintf("attempts:%d", min(ob.Attempts, 6)))
 		w.Tally(fmt.Sprintf("err_class:%d", ob.ErrClass))
 		w.Add(term, desc, sc.Kind+"-"+exporterNames[sc.Exporter], ob.Attempts > 1 || ob.ErrClass != 0)
+	}
+	swg.Wait()
+	for i, sc := range shutCases {
+		desc := map[string]any{"exporter": exporterNames[sc.e], "shutdown_context": []string{"already cancelled", "expires after 1 ms"}[sc.variant], "observed": shutObs[i]}
+		if shutFail[i] != "" {
+			w.Violation(shutFail[i], desc)
+			continue
+		}
+		ob := shutObs[i]
+		term := vgen.App("CShutdownExpired", vgen.N(uint64(sc.e)), vgen.N(uint64(sc.variant)), vgen.Nat(ob.Before), vgen.Bool(ob.ShutdownReturned),
+			vgen.Bool(ob.ExportReturned), vgen.N(uint64(ob.ExportErrClass)), vgen.Nat(ob.Late), vgen.N(uint64(ob.LaterErrClass)))
+		w.Tally("shutdown-expired:" + exporterNames[sc.e])
+		w.Add(term, desc, "shutdown-expired-ctx-"+exporterNames[sc.e], true)
 	}
 	bursts := genBursts(r.Fork(), o.Tier)
 	for bi := range bursts {
